@@ -97,8 +97,8 @@ type generator struct {
 }
 
 const (
-	maxLines    = 330_000
-	maxStmts    = 16_000
+	maxLines    = 260_000
+	maxStmts    = 12_000
 	maxPadChars = 60_000
 )
 
@@ -248,11 +248,11 @@ func (g *generator) drawLines() int {
 		n = 0
 	case x < 62:
 		n = 1 + g.r.Intn(40)
-	case x < 76:
+	case x < 78:
 		n = 41 + g.r.Intn(260)
-	case x < 89:
+	case x < 92:
 		n = 301 + g.r.Intn(4700)
-	case x < 97:
+	case x < 98:
 		n = 5001 + g.r.Intn(60000)
 	default:
 		n = 100_000
@@ -276,9 +276,9 @@ func (g *generator) drawStmts() int {
 		n = 0
 	case x < 62:
 		n = 1 + g.r.Intn(20)
-	case x < 82:
+	case x < 86:
 		n = 21 + g.r.Intn(280)
-	case x < 95:
+	case x < 97:
 		n = 301 + g.r.Intn(2200)
 	default:
 		n = 2500 + g.r.Intn(2501)
